@@ -288,6 +288,9 @@ class LocStackPattern:
     def __getattr__(self: Pat, item: str) -> Pat:
         if item.startswith("__") and item.endswith("__"):
             raise AttributeError
+        if item == "ANY":
+            # it is reached only when the ``ANY`` property itself raised AttributeError (non-empty pattern)
+            raise AttributeError("You must access to ANY only via `P.ANY`, other usage is misleading")
         return self[item]
 
     def __getitem__(self: Pat, item: Union[Pred, VarTuple[Pred]]) -> Pat:
